@@ -1537,6 +1537,99 @@ theorem replaceWhole_spec {s : CellStore} (h : CellInv s) {cell : Int} (hv : s.v
       have h2 : nodes[j]? = none := List.getElem?_eq_none (by omega)
       rw [h1, h2]; rfl
 
+
+/-! ### frame and slot reuse -/
+
+/-- `ref_cell_add` does not disturb any valid cell, and the id it returns was not a valid cell -/
+theorem add_frame {s : CellStore} (h : CellInv s) {nodes : List Int} (hlen : nodes.length = s.sizePer)
+    (hnn : ∀ v ∈ nodes.take s.nodePer, 0 ≤ v) (hok : (s.add nodes).1 = .ok) :
+    s.validCell (s.add nodes).2.1 = false ∧
+    (s.add nodes).2.2.validCell (s.add nodes).2.1 = true ∧
+    (s.add nodes).2.2.cellNodes (s.add nodes).2.1 = nodes.take s.nodePer ∧
+    ∀ c, s.validCell c = true →
+      (s.add nodes).2.2.validCell c = true ∧ (s.add nodes).2.2.cellNodes c = s.cellNodes c := by
+  have key : ∀ t : CellStore, s.grow = some t → CellInv t → t.blank ≠ -1 → t.nodePer = s.nodePer →
+      t.sizePer = s.sizePer → (∀ c, t.validCell c = s.validCell c) →
+      (∀ c, s.validCell c = true → t.cellNodes c = s.cellNodes c) →
+      s.validCell (s.add nodes).2.1 = false ∧
+      (s.add nodes).2.2.validCell (s.add nodes).2.1 = true ∧
+      (s.add nodes).2.2.cellNodes (s.add nodes).2.1 = nodes.take s.nodePer ∧
+      ∀ c, s.validCell c = true →
+        (s.add nodes).2.2.validCell c = true ∧ (s.add nodes).2.2.cellNodes c = s.cellNodes c := by
+    intro t hg ht hb hnp hsp hval hnodes
+    obtain ⟨_, hinv, hcell, hinvalid, h0, hc2n, hnp'⟩ :=
+      add_of_grow_CellInv hg ht hb (by rw [hsp]; exact hlen) (by rw [hnp]; exact hnn)
+    obtain ⟨_, _, hlt, _⟩ := pop_CellInv (u := addResult t nodes) ht hb (by rw [hsp]; exact hlen)
+      (by rw [hnp]; exact hnn) rfl rfl rfl rfl rfl
+      (adjAddAll_spec (nodes.take t.nodePer) t.adj t.blank (by rw [hnp]; exact hnn)).2
+    have hi : t.blank.toNat < t.c2n.length := hlt
+    rw [hcell]
+    refine ⟨by rw [← hval]; exact hinvalid, ?_, ?_, ?_⟩
+    · rw [validCell_iff]
+      refine ⟨h0, by simpa [CellStore.max, hc2n] using hi, ?_⟩
+      simp only [c2nAt, row, hc2n, getD_rows_set_self hi]
+      exact liveRow_iff.1 (liveRow_of_nonneg h.per.1 hnn (by have := h.per.2.1; omega))
+    · rw [cellNodes_set_self hc2n hi rfl, hnp', hnp]
+    · intro c hvc
+      have hvt : t.validCell c = true := by rw [hval]; exact hvc
+      have hne : c.toNat ≠ t.blank.toNat := by
+        intro e
+        have : c = t.blank := by
+          obtain ⟨hc0, _, _⟩ := validCell_iff.1 hvt
+          omega
+        rw [this, hinvalid] at hvt
+        exact absurd hvt (by simp)
+      exact ⟨by rw [validCell_set_ne hc2n (Or.inl hne)]; exact hvt,
+        by rw [cellNodes_set_ne hc2n (by rw [hnp']) hne, hnodes c hvc]⟩
+  rcases grow_cases s with ⟨hb, hg⟩ | ⟨hb, hm, hg⟩ | ⟨hb, hm, chunk, hchunk, hg⟩
+  · exact key s hg h hb rfl rfl (fun _ => rfl) (fun _ _ => rfl)
+  · rw [add_none hg] at hok; exact absurd hok (by simp)
+  · obtain ⟨ht, hval, hnodes⟩ := grown_facts h hb hchunk
+    exact key (grown s chunk) hg ht (by simp only [grown]; omega) rfl rfl hval hnodes
+
+/-- `ref_cell_remove` does not disturb any other valid cell -/
+theorem remove_frame {s : CellStore} (h : CellInv s) {cell : Int} (hv : s.validCell cell = true) :
+    (s.remove cell).2.validCell cell = false ∧ (s.remove cell).2.blank = cell ∧
+    ∀ c, c ≠ cell → s.validCell c = true →
+      (s.remove cell).2.validCell c = true ∧ (s.remove cell).2.cellNodes c = s.cellNodes c := by
+  obtain ⟨h0, hlt, _⟩ := validCell_iff.1 hv
+  have hi : cell.toNat < s.c2n.length := hlt
+  have hrl := row_length h hlt
+  rw [remove_eq h hv]
+  refine ⟨?_, rfl, ?_⟩
+  · rw [Bool.eq_false_iff]
+    intro hv'
+    obtain ⟨_, _, h3⟩ := validCell_iff.1 hv'
+    simp only [c2nAt, row, getD_rows_set_self hi] at h3
+    exact h3 (getD_set_set_0 (r := s.row cell.toNat) (b := s.blank) (by have := h.per.2.2.1; omega)).1
+  · intro c hc hvc
+    have hne : c.toNat ≠ cell.toNat := by
+      obtain ⟨hc0, _, _⟩ := validCell_iff.1 hvc
+      omega
+    constructor
+    · rw [validCell_set_ne (s := s) (i := cell.toNat) rfl (Or.inl hne)]; exact hvc
+    · refine cellNodes_set_ne (s := s) (i := cell.toNat)
+        (x := ((s.row cell.toNat).set 0 (-1)).set 1 s.blank) ?_ ?_ hne <;> rfl
+
+/-- slot reuse: removing a cell and adding another one returns the freed id -/
+theorem remove_add_reuses {s : CellStore} (h : CellInv s) {cell : Int} (hv : s.validCell cell = true)
+    {nodes : List Int} (hlen : nodes.length = s.sizePer) (hnn : ∀ v ∈ nodes.take s.nodePer, 0 ≤ v) :
+    ((s.remove cell).2.add nodes).1 = .ok ∧ ((s.remove cell).2.add nodes).2.1 = cell := by
+  obtain ⟨_, hinv⟩ := remove_CellInv h hv
+  obtain ⟨_, hbl, _⟩ := remove_frame h hv
+  obtain ⟨h0, _, _⟩ := validCell_iff.1 hv
+  have hb : (s.remove cell).2.blank ≠ -1 := by rw [hbl]; omega
+  have hg : (s.remove cell).2.grow = some (s.remove cell).2 := by
+    rcases grow_cases (s.remove cell).2 with ⟨_, hg⟩ | ⟨hb', _, _⟩ | ⟨hb', _, _⟩
+    · exact hg
+    · exact absurd hb' hb
+    · exact absurd hb' hb
+  have hsp : (s.remove cell).2.sizePer = s.sizePer := by rw [remove_eq h hv]
+  have hnp : (s.remove cell).2.nodePer = s.nodePer := by rw [remove_eq h hv]
+  obtain ⟨hok, _, hcell, _⟩ := add_of_grow_CellInv hg hinv hb (by rw [hsp]; exact hlen)
+    (by rw [hnp]; exact hnn)
+  exact ⟨hok, by rw [hcell, hbl]⟩
+
 end CellStore
 
 end Refine.Model.CellStore
